@@ -5,7 +5,8 @@
    to what this model can say: the two setters and the modelled structural edit (move_down at the top level)
    recompute from scratch; finding F-C15-1 (structural edits did not, repaired by /repo edc9f34) is kept as
    [stale_after_move_refuted] about the old definition; arbitrary edit histories belong to C09's model. *)
-From PsdV Require Import Base.Prelude Tree.Forest Tree.Clip Tree.ClipProofs Tree.Corr.
+From PsdV Require Import Base.Prelude Tree.Forest Tree.Clip Tree.ClipProofs Tree.Corr Tree.ClipComposite Tree.ClipCompositeSpec.
+From PsdV Require Composite.Scalar Composite.Model Composite.Geometry Composite.Doc Composite.Plane Composite.Spec Composite.SpecEval Composite.ProofsKernel Composite.ProofsDoc.
 
 (* ---- the reversed single pass with a stack equals the forward specification *)
 Theorem compute_spec : forall m f, compute m f = clip_spec m f.
@@ -124,3 +125,54 @@ Print Assumptions stale_draw_order_refuted.
 Example ex_repaired :
   current (op_swap 0 ex_two) /\ draw_level (lay (op_swap 0 ex_two)) = map tid (lay (op_swap 0 ex_two)).
 Proof. split; [apply current_swap, current_open|reflexivity]. Qed.
+
+(* ---- C15 <-> C11.  The compositor model of Composite/Doc.v groups clipping runs itself, by a right-to-left fold
+   over the clipping flags ([runs], literally Doc.sample_runs and the fold inside Doc.sample_layer).  The real
+   compositor instead reads the STORED fields.  [field_driven S ls l'] is that reading: walk the level l', skip
+   a layer that is clipping and has a target, otherwise sample it together with the samples of the layers its
+   clip_layers name.  With the fields computed by the C15 model (Photoshop mode: Doc.v has no compatibility
+   mode) both give the same element list, for every sampling function S and every sibling list *)
+Theorem runs_agree_generic : forall (X E : Type) (S : X -> list E -> list E) (isc : X -> bool) (ls : list X),
+  field_driven S ls (level Photoshop (embed isc ls)) = runs_list S isc ls.
+Proof. exact @ClipComposite.runs_agree_generic. Qed.
+Print Assumptions runs_agree_generic.
+
+(* the document compositor of C11 at the top level of a document ... *)
+Theorem runs_agree : forall (O : Scalar.Ops) vp x y k (ls : list Doc.layer),
+  @Doc.sample_list O vp x y k ls =
+  field_driven (@Doc.sample_layer O vp x y k) ls (level Photoshop (embed doc_clip ls)).
+Proof. exact @ClipComposite.runs_agree. Qed.
+Print Assumptions runs_agree.
+
+(* ... and for the children of every group it descends into (any depth: sample_layer is recursive) *)
+Theorem runs_agree_in_groups : forall (O : Scalar.Ops) vp x y k pass ch at_ clips,
+  negb (Doc.at_vis at_) = false ->
+  Geometry.is_zero_rect (Geometry.intersect vp (Doc.bbox_of (Doc.Gr pass ch at_))) = false ->
+  Geometry.inside (Geometry.intersect vp (Doc.bbox_of (Doc.Gr pass ch at_))) x y = true ->
+  exists fa B,
+    @Doc.sample_layer O vp x y k (Doc.Gr pass ch at_) clips =
+    [@Model.Group O (negb pass)
+       (field_driven (@Doc.sample_layer O (Geometry.intersect vp (Doc.bbox_of (Doc.Gr pass ch at_))) x y k) ch
+                     (level Photoshop (embed doc_clip ch)))
+       fa B (Doc.at_ko at_) clips].
+Proof. exact @ClipComposite.sample_group_children. Qed.
+Print Assumptions runs_agree_in_groups.
+
+(* hence C11's viewport_model_eq_spec speaks about the compositor that is driven by the fields whose correctness
+   the theorems above establish: at every pixel of any viewport it computes the whole-plane PDF group formula
+   (uses the axioms of Coq's classical real numbers, through Composite/ProofsEndToEnd.v) *)
+Theorem field_driven_eq_spec : forall (ls : list Doc.layer) (vp : Geometry.rect) (cb ab : Rdefinitions.R) (x y : Z) (k : nat),
+  Forall ProofsDoc.layer_ok ls -> ProofsKernel.unit cb -> ProofsKernel.unit ab -> Geometry.inside vp x y = true ->
+  let '(C, f, al) := @Model.composite_px Scalar.ROps false cb ab
+                       (field_driven (@Doc.sample_layer Scalar.ROps vp x y k) ls (level Photoshop (embed doc_clip ls))) in
+  let '(P, f', al') := SpecEval.pdf_composite false cb ab (@Plane.plane_list Scalar.ROps x y k ls) in
+  f = f' /\ al = al' /\ Rdefinitions.Rmult al C = P.
+Proof. exact ClipCompositeSpec.field_driven_eq_spec. Qed.
+Print Assumptions field_driven_eq_spec.
+
+Example ex_runs :      (* items = (name, clipping flag); the sampling function just records what it is given *)
+  let S := fun (x : Z * bool) (clips : list (Z * list Z)) => [(fst x, map fst clips)] in
+  field_driven S [(0, false); (1, true); (2, true); (3, false); (4, true)]
+               (level Photoshop (embed snd [(0, false); (1, true); (2, true); (3, false); (4, true)]))
+  = [(0, [1; 2]); (3, [4])].
+Proof. reflexivity. Qed.
